@@ -166,6 +166,9 @@ def eval_json(base, op):
     kind = op[3] if op[0] == "set" and len(op) > 3 else None
     if op[0] == "set":
         set_path(doc, op[1], copy.deepcopy(op[2]))
+    elif op[0] == "rekey":
+        d = get_path(doc, op[1])
+        d[op[3]] = d.pop(op[2])
     elif op[0] == "del":
         del_path(doc, op[1])
     else:
@@ -350,6 +353,18 @@ def run_unit(unit, acc):
             acc.ev()
             acc.nontriv((base, label, repr(value)))
             _judge_value(base, label, path, kind, value, o, acc)
+    if fmt == "images":
+        for v in sorted(doc["payload"]["images"]):
+            for a in sorted(doc["payload"]["images"][v]):
+                for new in ("src", "nosrc", "foo", "X86_64"):
+                    o = eval_json(base, ["rekey", ["payload", "images", v], a, new])
+                    acc.ev()
+                    acc.nontriv((base, "rekey", v, a, new))
+                    if o["load"] != "rejected":
+                        acc.violation("arch-key", {"kind": "json", "base": base, "op": ["rekey", ["payload", "images", v], a, new]}, o,
+                                      "%s with the tree arch key %s/%s renamed to %r was loaded" % (base, v, a, new))
+                    else:
+                        acc.outcome("value:rejected")
     for path in json_required(fmt, doc):
         o = eval_json(base, ["del", path])
         acc.ev()
